@@ -65,6 +65,10 @@ class World:
         if worker in self.pulling and not self.pulling[worker].dead:
             return False
         conn = self.conns[worker]
+        # oracle for the order clause of C17: what a non-blocking pull must return
+        cands = [j for c, q in self.wq.channel2q.items() if (not channels or c in channels) for j in q if not j.done]
+        expected = min(cands, key=lambda j: (j.priority, j.serial)).jobid if cands else None
+        nrecv = len(self.received)
 
         def run():
             snap = conn.rpc_qpull(list(channels))
@@ -72,6 +76,10 @@ class World:
         g = gevent.spawn(run)
         self.pulling[worker] = g
         gevent.sleep(0)      # let it run until it returns or blocks
+        if expected is not None and len(self.received) > nrecv and self.received[-1][1]["jobid"] != expected:
+            got = self.received[-1][1]
+            self.order_violation = (f"worker {worker} pulled job {got['jobid']!r} (priority {got['priority']}) while job {expected!r} "
+                                    f"with a lower (priority, serial) was queued in a requested channel")
         return True
 
     def run_loop(self):
@@ -131,7 +139,11 @@ class World:
                 return f"job {jid!r} (not finished) is in {n} places {where}"
         return None
 
+    order_violation = None
+
     def check_c17(self):
+        if self.order_violation:
+            return self.order_violation
         for worker, snap, was_done, channels in self.received:
             if was_done:
                 return f"worker {worker} received job {snap['jobid']!r} that was already finished (error={snap['error']!r})"
@@ -189,11 +201,13 @@ def apply(world, op):
     return True
 
 
-def run_history(ops, checks=("c16", "c17")):
+def run_history(ops, checks=("c16", "c17"), lenient=False):
     w = World()
     try:
         for i, op in enumerate(ops):
             if apply(w, op) is False:
+                if lenient:
+                    continue
                 return None, None     # op not applicable: history pruned
             for c in checks:
                 msg = getattr(w, "check_" + c)()
@@ -212,7 +226,7 @@ def run_history(ops, checks=("c16", "c17")):
         gevent.sleep(0)
 
 
-def search(max_len, checks=("c16", "c17"), budget=200000, seed=0, want=None, random_len=0, random_n=0):
+def search(max_len, checks=("c16", "c17"), budget=200000, seed=0, want=None, random_len=0, random_n=0, skip=None, skipped=None):
     """exhaustive to max_len over the alphabet, then seeded random longer histories.
     Returns (evaluations, distinct_applicable, first failure or None, samples)."""
     ops = ops_alphabet()
@@ -233,7 +247,32 @@ def search(max_len, checks=("c16", "c17"), budget=200000, seed=0, want=None, ran
             if applicable % 5000 == 1 and len(samples) < 4:
                 samples.append([list(o) for o in hist])
             if res != "ok" and (want is None or res == want):
-                return n, applicable, {"check": res, "history": [list(o) for o in hist], "detail": msg}, samples
+                f = {"check": res, "history": [list(o) for o in hist], "detail": msg}
+                if skip is not None and skip(f):
+                    if skipped is not None and not skipped:
+                        skipped.append(f)
+                    continue
+                return n, applicable, f, samples
+    if "c17" in checks:
+        # targeted family for the order clause: 3-4 adds with priorities 0..2 on one channel, one
+        # optional kill, then pulls until the queue is empty
+        for k in (3, 4):
+            for prios in itertools.product((0, 1, 2), repeat=k):
+                for killed in [None] + list(range(k)):
+                    hist = [("add", "a", p) for p in prios] + ([("kill", killed)] if killed is not None else []) + \
+                           [("pull", 1, ("a",)), ("finish", 0), ("finish", 1), ("finish", 2), ("pull", 2, ()), ("pull", 1, ("a",))]
+                    n += 1
+                    res, msg = run_history(hist, checks, lenient=True)
+                    if res is None:
+                        continue
+                    applicable += 1
+                    if res != "ok" and (want is None or res == want):
+                        f = {"check": res, "history": [list(o) for o in hist], "detail": msg}
+                        if skip is not None and skip(f):
+                            if skipped is not None and not skipped:
+                                skipped.append(f)
+                            continue
+                        return n, applicable, f, samples
     rnd = random.Random(seed)
     for _ in range(random_n):
         hist = [rnd.choice(ops) for _ in range(rnd.randint(max_len + 1, random_len))]
@@ -245,7 +284,12 @@ def search(max_len, checks=("c16", "c17"), budget=200000, seed=0, want=None, ran
             continue
         applicable += 1
         if res != "ok" and (want is None or res == want):
-            return n, applicable, {"check": res, "history": [list(o) for o in hist], "detail": msg}, samples
+            f = {"check": res, "history": [list(o) for o in hist], "detail": msg}
+            if skip is not None and skip(f):
+                if skipped is not None and not skipped:
+                    skipped.append(f)
+                continue
+            return n, applicable, f, samples
     return n, applicable, None, samples
 
 
